@@ -44,7 +44,11 @@ def write_evidence(prop, tier, seed, plan, results, classes, wall, n_viol):
             "outside_claim": plan.get("outside", []),
             "stubs": plan.get("stubs", []),
             "queries_discharged": paths,
-            "solver": "z3 5.1.0 via CrossHair 0.0.110" + (" ; z3 direct (py2smt)" if any(r.get("smt") for r in results) else ""),
+            "solver": "z3 5.1.0 via CrossHair 0.0.110"
+            + (" ; z3 direct on AST-generated encodings (py2smt)" if any((r.get("smt") or {}).get("engine") for r in results) else "")
+            + (" ; AST site inventory (no solver)" if any((r.get("smt") or {}).get("kind") == "ast-inventory" for r in results) else ""),
+            "smt_details": [dict(name=r["name"], **{k: v for k, v in (r.get("smt") or {}).items() if k != "queries"},
+                                 queries=(r.get("smt") or {}).get("queries", [])[:60]) for r in results if r.get("smt")],
             "solver_cpu_s": round(sum(r.get("cpu_s", 0) for r in results), 1),
             "conditions": per,
             "outcome_classes": [list(c) for c in classes][:400],
